@@ -1,6 +1,6 @@
 (* Proofs about Strat/DepGraph.v: a mention inside a temporally annotated body
    literal gives the same dependency graph as the plain literal. *)
-From Coq Require Import List ZArith Bool.
+From Coq Require Import List ZArith Bool Lia.
 From MV Require Import Strat.DepGraph.
 Import ListNotations.
 Open Scope Z_scope.
@@ -61,4 +61,358 @@ Lemma prefix_ignores_temporal_proof P :
 Proof.
   unfold make_dep_graph_prefix, make_dep_graph, make_dep_graph_gen. simpl.
   apply fold_left_map_ext. intros a x. apply prefix_ignores_temporal_rule; reflexivity.
+Qed.
+
+(* ====================================================================================
+   depgraph_edges_exact: the graph make_dep_graph builds has exactly the arcs the rule
+   set mentions. Plan: (1) the two association lists are instances of one generic one
+   (aget/aset) with the usual get/set laws and key uniqueness; (2) init_node / add_edge
+   in terms of the lookup lk g s d : option bool and the node test isn g s; (3) the
+   construction is a left fold of elementary operations (OInit / OEdge) over the list
+   ops P; (4) the lookup after a fold is a boolean function of the lookup before and of
+   the operations folded ("negative wins"); (5) read off arcs and verts. *)
+
+(* ---- (1) generic association lists *)
+Section Assoc.
+Context {V : Type}.
+Fixpoint aget (m : list (pred * V)) (d : pred) : option V :=
+  match m with
+  | [] => None
+  | (k, b) :: m' => if k =? d then Some b else aget m' d
+  end.
+Fixpoint aset (m : list (pred * V)) (d : pred) (b : V) : list (pred * V) :=
+  match m with
+  | [] => [(d, b)]
+  | (k, c) :: m' => if k =? d then (k, b) :: m' else (k, c) :: aset m' d b
+  end.
+
+Lemma aget_aset m d v d' : aget (aset m d v) d' = if d =? d' then Some v else aget m d'.
+Proof.
+  induction m as [|[k c] m IH]; simpl.
+  - reflexivity.
+  - destruct (Z.eqb_spec k d) as [->|Hkd]; simpl.
+    + destruct (d =? d'); reflexivity.
+    + rewrite IH. destruct (Z.eqb_spec k d') as [->|Hkd'].
+      * destruct (Z.eqb_spec d d'); [congruence|reflexivity].
+      * reflexivity.
+Qed.
+
+Lemma aset_keys m d v k : In k (map fst (aset m d v)) <-> k = d \/ In k (map fst m).
+Proof.
+  induction m as [|[k0 c] m IH]; simpl.
+  - intuition.
+  - destruct (Z.eqb_spec k0 d) as [->|Hne]; simpl.
+    + intuition.
+    + rewrite IH. intuition.
+Qed.
+
+Lemma aset_nodup m d v : NoDup (map fst m) -> NoDup (map fst (aset m d v)).
+Proof.
+  induction m as [|[k0 c] m IH]; simpl; intros Hnd.
+  - constructor; [intros []|constructor].
+  - inversion Hnd as [|? ? Hn Hnd']; subst. destruct (Z.eqb_spec k0 d) as [->|Hne]; simpl.
+    + constructor; auto.
+    + constructor; [|auto]. rewrite aset_keys. intros [->|H]; [congruence|auto].
+Qed.
+
+Lemma aget_some_in m k v : aget m k = Some v -> In (k, v) m.
+Proof.
+  induction m as [|[k0 c] m IH]; simpl; [discriminate|].
+  destruct (Z.eqb_spec k0 k) as [->|Hne]; [intros [= ->]; auto|auto].
+Qed.
+
+Lemma aget_in m : NoDup (map fst m) -> forall k v, In (k, v) m <-> aget m k = Some v.
+Proof.
+  intros Hnd k v. split; [|apply aget_some_in].
+  induction m as [|[k0 c] m IH]; simpl; [intros []|]. simpl in Hnd.
+  inversion Hnd as [|? ? Hn Hnd']; subst.
+  intros [[= -> ->]|Hin].
+  - rewrite Z.eqb_refl. reflexivity.
+  - destruct (Z.eqb_spec k0 k) as [->|Hne]; [|auto].
+    exfalso. apply Hn. apply in_map_iff. exists (k, v). auto.
+Qed.
+
+Lemma aget_key m k : In k (map fst m) <-> exists v, aget m k = Some v.
+Proof.
+  induction m as [|[k0 c] m IH]; simpl.
+  - split; [intros []|intros [v Hv]; discriminate].
+  - destruct (Z.eqb_spec k0 k) as [->|Hne].
+    + split; [eauto|auto].
+    + rewrite <- IH. intuition.
+Qed.
+End Assoc.
+
+Lemma em_get_a m d : em_get m d = aget m d.
+Proof. induction m as [|[k b] m IH]; simpl; [reflexivity|rewrite IH; reflexivity]. Qed.
+Lemma em_set_a m d b : em_set m d b = aset m d b.
+Proof. induction m as [|[k c] m IH]; simpl; [reflexivity|rewrite IH; reflexivity]. Qed.
+Lemma dg_get_a g s : dg_get g s = aget g s.
+Proof. induction g as [|[k b] g IH]; simpl; [reflexivity|rewrite IH; reflexivity]. Qed.
+Lemma dg_set_a g s m : dg_set g s m = aset g s m.
+Proof. induction g as [|[k c] g IH]; simpl; [reflexivity|rewrite IH; reflexivity]. Qed.
+
+(* ---- (2) lookup, node test, well-formedness *)
+Definition lk (g : depgraph) (s d : pred) : option bool :=
+  match aget g s with Some m => aget m d | None => None end.
+Definition isn (g : depgraph) (s : pred) : bool :=
+  match aget g s with Some _ => true | None => false end.
+Definition wf (g : depgraph) : Prop :=
+  NoDup (map fst g) /\ forall s m, aget g s = Some m -> NoDup (map fst m).
+
+Definition is_t (o : option bool) : bool := match o with Some true => true | _ => false end.
+Definition is_f (o : option bool) : bool := match o with Some false => true | _ => false end.
+
+Lemma init_node_a g s : init_node g s = match aget g s with Some _ => g | None => aset g s [] end.
+Proof. unfold init_node. rewrite dg_get_a, dg_set_a. reflexivity. Qed.
+
+Lemma add_edge_a g s d neg :
+  add_edge g s d neg =
+  let edges := match aget g s with Some m => m | None => [] end in
+  if neg then aset g s (aset edges d true)
+  else match aget edges d with
+       | Some true => g
+       | _ => aset g s (aset edges d false)
+       end.
+Proof. unfold add_edge. rewrite dg_get_a, em_get_a, !dg_set_a, !em_set_a. reflexivity. Qed.
+
+Lemma lk_init_node g s s' d' : lk (init_node g s) s' d' = lk g s' d'.
+Proof.
+  rewrite init_node_a. destruct (aget g s) eqn:E; [reflexivity|].
+  unfold lk. rewrite aget_aset. destruct (Z.eqb_spec s s') as [<-|]; [rewrite E|]; reflexivity.
+Qed.
+
+Lemma isn_init_node g s s' : isn (init_node g s) s' = (s =? s') || isn g s'.
+Proof.
+  rewrite init_node_a. unfold isn. destruct (aget g s) eqn:E.
+  - destruct (Z.eqb_spec s s') as [<-|]; [rewrite E|]; reflexivity.
+  - rewrite aget_aset. destruct (s =? s'); reflexivity.
+Qed.
+
+Lemma wf_aset g s m : wf g -> NoDup (map fst m) -> wf (aset g s m).
+Proof.
+  intros [H1 H2] Hm. split; [apply aset_nodup; exact H1|].
+  intros s' m'. rewrite aget_aset. destruct (s =? s'); [intros [= <-]; exact Hm|apply H2].
+Qed.
+
+Lemma wf_init_node g s : wf g -> wf (init_node g s).
+Proof.
+  intros H. rewrite init_node_a. destruct (aget g s); [exact H|].
+  apply wf_aset; [exact H|constructor].
+Qed.
+
+Lemma edges_nodup (g : depgraph) s : wf g -> NoDup (map fst (match aget g s with Some m => m | None => [] end)).
+Proof. intros [_ H2]. destruct (aget g s) eqn:E; [eapply H2; eauto|constructor]. Qed.
+
+Lemma wf_add_edge g s d neg : wf g -> wf (add_edge g s d neg).
+Proof.
+  intros H. rewrite add_edge_a. cbv zeta.
+  assert (Hs : forall b, wf (aset g s (aset (match aget g s with Some m => m | None => [] end) d b))).
+  { intros b. apply wf_aset; [exact H|]. apply aset_nodup. apply edges_nodup. exact H. }
+  destruct neg; [apply Hs|].
+  destruct (aget _ d) as [[|]|]; [exact H|apply Hs|apply Hs].
+Qed.
+
+Lemma edges_lk (g : depgraph) s d : aget (match aget g s with Some m => m | None => [] end) d = lk g s d.
+Proof. unfold lk. destruct (aget g s); reflexivity. Qed.
+
+(* addEdge: the label of (s, d) becomes "negated now, or negative before" *)
+Lemma lk_add_edge g s d neg s' d' :
+  lk (add_edge g s d neg) s' d' =
+  if (s =? s') && (d =? d') then Some (neg || is_t (lk g s d)) else lk g s' d'.
+Proof.
+  rewrite add_edge_a. cbv zeta.
+  assert (Hs : forall b, lk (aset g s (aset (match aget g s with Some m => m | None => [] end) d b)) s' d' =
+                         if (s =? s') && (d =? d') then Some b else lk g s' d').
+  { intros b. unfold lk at 1. rewrite aget_aset. destruct (Z.eqb_spec s s') as [<-|]; [|reflexivity].
+    rewrite aget_aset, edges_lk. destruct (d =? d'); reflexivity. }
+  destruct neg; [rewrite Hs; reflexivity|].
+  rewrite edges_lk. destruct (lk g s d) as [[|]|] eqn:E; simpl.
+  - destruct (Z.eqb_spec s s') as [<-|]; [|reflexivity].
+    destruct (Z.eqb_spec d d') as [Hd|]; [subst; exact E|reflexivity].
+  - apply Hs.
+  - apply Hs.
+Qed.
+
+Lemma isn_add_edge g s d neg s' : isn (add_edge g s d neg) s' = (s =? s') || isn g s'.
+Proof.
+  rewrite add_edge_a. cbv zeta.
+  assert (Hs : forall M, isn (aset g s M) s' = (s =? s') || isn g s').
+  { intros M. unfold isn. rewrite aget_aset. destruct (s =? s'); reflexivity. }
+  destruct neg; [apply Hs|].
+  destruct (aget _ d) as [[|]|] eqn:E; [|apply Hs|apply Hs].
+  unfold isn. destruct (Z.eqb_spec s s') as [He|]; [subst s'|reflexivity].
+  destruct (aget g s); [reflexivity|discriminate E].
+Qed.
+
+(* ---- (3) the construction as a fold of elementary operations *)
+Inductive op := OInit (s : pred) | OEdge (s d : pred) (b : bool) | ONop.
+
+Definition apply_op (g : depgraph) (o : op) : depgraph :=
+  match o with
+  | OInit s => init_node g s
+  | OEdge s d b => add_edge g s d b
+  | ONop => g
+  end.
+
+(* what one body premise pm of rule r says: Some (mentioned predicate, negative?) or None.
+   A positive mention (plain or temporally annotated) of a built-in or EDB predicate is
+   skipped and is negative exactly in a do-transform rule; a negated mention of an EDB
+   predicate is skipped (there is no built-in test on that path, as in the Go code). *)
+Definition mention (P : program) (r : rule) (pm : premise) : option (pred * bool) :=
+  match pm with
+  | PAtom q | PTempLit false q | PTempAtom q =>
+      if memb q (builtins P) || memb q (edb P) then None
+      else Some (q, match xform r with TDo => true | _ => false end)
+  | PNeg q | PTempLit true q => if memb q (edb P) then None else Some (q, true)
+  | POther => None
+  end.
+
+Definition prem_op (P : program) (r : rule) (pm : premise) : op :=
+  match mention P r pm with Some (q, b) => OEdge (head r) q b | None => ONop end.
+Definition rule_ops (P : program) (r : rule) : list op := OInit (head r) :: map (prem_op P r) (body r).
+Definition ops (P : program) : list op := flat_map (rule_ops P) (rules P).
+
+Lemma add_premise_op P r g pm : add_premise true P r g pm = apply_op g (prem_op P r pm).
+Proof.
+  unfold prem_op, mention.
+  destruct pm as [p|p|[|] p|p|]; simpl; unfold add_atom, add_negatom;
+    try (destruct (memb p (builtins P)), (memb p (edb P)); simpl; try reflexivity; destruct (xform r); reflexivity);
+    try (destruct (memb p (edb P)); reflexivity).
+  reflexivity.
+Qed.
+
+Lemma add_rule_ops P g r : add_rule true P g r = fold_left apply_op (rule_ops P r) g.
+Proof.
+  unfold add_rule, rule_ops. simpl. apply fold_left_map_ext. intros a x. apply add_premise_op.
+Qed.
+
+Lemma fold_left_flat_map {A B C} (f : A -> C -> A) (h : B -> list C) l :
+  forall a, fold_left f (flat_map h l) a = fold_left (fun a x => fold_left f (h x) a) l a.
+Proof. induction l as [|x l IH]; intros a; simpl; [reflexivity|]. rewrite fold_left_app. apply IH. Qed.
+
+Lemma fold_left_ext {A B} (f f' : A -> B -> A) l : (forall a x, f a x = f' a x) ->
+  forall a, fold_left f l a = fold_left f' l a.
+Proof. intros H. induction l as [|x l IH]; intros a; simpl; [reflexivity|]. rewrite H. apply IH. Qed.
+
+Lemma make_dep_graph_ops P : make_dep_graph P = fold_left apply_op (ops P) [].
+Proof.
+  unfold make_dep_graph, make_dep_graph_gen, ops. rewrite fold_left_flat_map.
+  apply fold_left_ext. intros a x. apply add_rule_ops.
+Qed.
+
+(* ---- (4) the state after a fold *)
+Definition eb (s d : pred) (b : bool) (o : op) : bool :=
+  match o with OEdge s' d' b' => (s' =? s) && (d' =? d) && Bool.eqb b' b | _ => false end.
+Definition src (s : pred) (o : op) : bool :=
+  match o with OInit s' => s' =? s | OEdge s' _ _ => s' =? s | ONop => false end.
+Definition combine (old : option bool) (anyneg anypos : bool) : option bool :=
+  if is_t old || anyneg then Some true else if is_f old || anypos then Some false else None.
+
+Lemma lk_fold : forall l g s d,
+  lk (fold_left apply_op l g) s d =
+  combine (lk g s d) (existsb (eb s d true) l) (existsb (eb s d false) l).
+Proof.
+  induction l as [|o l IH]; intros g s d; simpl.
+  - unfold combine. destruct (lk g s d) as [[|]|]; reflexivity.
+  - rewrite IH. destruct o as [s'|s' d' b'|]; simpl.
+    + rewrite lk_init_node. reflexivity.
+    + rewrite lk_add_edge. destruct ((s' =? s) && (d' =? d)) eqn:E; simpl; [|reflexivity].
+      apply andb_true_iff in E as [E1 E2]. apply Z.eqb_eq in E1, E2. subst s' d'.
+      unfold combine.
+      destruct b', (lk g s d) as [[|]|], (existsb (eb s d true) l), (existsb (eb s d false) l); reflexivity.
+    + reflexivity.
+Qed.
+
+Lemma isn_fold : forall l g s, isn (fold_left apply_op l g) s = isn g s || existsb (src s) l.
+Proof.
+  induction l as [|o l IH]; intros g s; simpl.
+  - rewrite orb_false_r. reflexivity.
+  - rewrite IH. destruct o as [s'|s' d' b'|]; simpl.
+    + rewrite isn_init_node. destruct (s' =? s), (isn g s); reflexivity.
+    + rewrite isn_add_edge. destruct (s' =? s), (isn g s); reflexivity.
+    + reflexivity.
+Qed.
+
+Lemma wf_fold : forall l g, wf g -> wf (fold_left apply_op l g).
+Proof.
+  induction l as [|o l IH]; intros g Hg; simpl; [exact Hg|]. apply IH.
+  destruct o; simpl; [apply wf_init_node|apply wf_add_edge|]; exact Hg.
+Qed.
+
+Lemma wf_nil : wf [].
+Proof. split; [constructor|intros s m H; discriminate H]. Qed.
+
+(* ---- (5) reading the graph *)
+Lemma arcs_lk g : wf g -> forall h q b, In (h, q, b) (arcs (graph_of g)) <-> lk g h q = Some b.
+Proof.
+  intros [H1 H2] h q b. unfold graph_of. simpl. rewrite in_flat_map. unfold lk. split.
+  - intros ([s m] & Hsm & Hin). simpl in Hin. apply in_map_iff in Hin as ([d c] & [= -> -> ->] & Hdc).
+    apply (aget_in g H1) in Hsm. rewrite Hsm. apply aget_in; [eapply H2; eauto|exact Hdc].
+  - destruct (aget g h) as [m|] eqn:E; [|discriminate]. intros Hq.
+    exists (h, m). split; [apply aget_some_in; exact E|].
+    simpl. apply in_map_iff. exists (q, b). split; [reflexivity|apply aget_some_in; exact Hq].
+Qed.
+
+Lemma verts_isn g h : In h (verts (graph_of g)) <-> isn g h = true.
+Proof.
+  unfold graph_of, isn. simpl. rewrite aget_key. split.
+  - intros [v ->]. reflexivity.
+  - destruct (aget g h); [eauto|discriminate].
+Qed.
+
+Definition mentioned (P : program) (h q : pred) (b : bool) : Prop :=
+  exists r pm, In r (rules P) /\ head r = h /\ In pm (body r) /\ mention P r pm = Some (q, b).
+
+Lemma ops_eb P h q b : existsb (eb h q b) (ops P) = true <-> mentioned P h q b.
+Proof.
+  rewrite existsb_exists. unfold ops, mentioned. split.
+  - intros (o & Ho & He). apply in_flat_map in Ho as (r & Hr & Ho). exists r.
+    destruct Ho as [<-|Ho]; [discriminate He|].
+    apply in_map_iff in Ho as (pm & <- & Hpm). exists pm. unfold prem_op in He.
+    destruct (mention P r pm) as [[q' b']|]; [|discriminate He]. simpl in He.
+    apply andb_true_iff in He as [He Hb]. apply andb_true_iff in He as [E1 E2].
+    apply Z.eqb_eq in E1, E2. apply Bool.eqb_prop in Hb. subst. auto.
+  - intros (r & pm & Hr & Hh & Hpm & Hm). exists (OEdge h q b). split.
+    + apply in_flat_map. exists r. split; [exact Hr|]. right. apply in_map_iff. exists pm.
+      unfold prem_op. rewrite Hm, Hh. auto.
+    + simpl. rewrite !Z.eqb_refl, Bool.eqb_reflx. reflexivity.
+Qed.
+
+Lemma ops_src P h : existsb (src h) (ops P) = true <-> exists r, In r (rules P) /\ head r = h.
+Proof.
+  rewrite existsb_exists. unfold ops. split.
+  - intros (o & Ho & He). apply in_flat_map in Ho as (r & Hr & Ho). exists r. split; [exact Hr|].
+    destruct Ho as [<-|Ho]; [apply Z.eqb_eq; exact He|].
+    apply in_map_iff in Ho as (pm & <- & Hpm). unfold prem_op in He.
+    destruct (mention P r pm) as [[q' b']|]; [apply Z.eqb_eq; exact He|discriminate He].
+  - intros (r & Hr & Hh). exists (OInit h). split; [|simpl; apply Z.eqb_refl].
+    apply in_flat_map. exists r. split; [exact Hr|]. left. rewrite Hh. reflexivity.
+Qed.
+
+Theorem depgraph_edges_exact_proof P :
+  let g := graph_of (make_dep_graph P) in
+  (forall h, In h (verts g) <-> exists r, In r (rules P) /\ head r = h) /\
+  NoDup (verts g) /\
+  (forall h q, In (h, q, true) (arcs g) <-> mentioned P h q true) /\
+  (forall h q, In (h, q, false) (arcs g) <-> mentioned P h q false /\ ~ mentioned P h q true) /\
+  (forall h q b b', In (h, q, b) (arcs g) -> In (h, q, b') (arcs g) -> b = b').
+Proof.
+  cbv zeta. rewrite make_dep_graph_ops.
+  assert (Hwf : wf (fold_left apply_op (ops P) [])) by (apply wf_fold, wf_nil).
+  assert (Hlk : forall h q, lk (fold_left apply_op (ops P) []) h q =
+                            combine None (existsb (eb h q true) (ops P)) (existsb (eb h q false) (ops P)))
+    by (intros h q; apply lk_fold).
+  split; [|split; [|split; [|split]]].
+  - intros h. rewrite verts_isn, isn_fold. simpl. apply ops_src.
+  - destruct Hwf as [H1 _]. exact H1.
+  - intros h q. rewrite (arcs_lk _ Hwf), Hlk, <- ops_eb. unfold combine. simpl.
+    destruct (existsb (eb h q true) (ops P)), (existsb (eb h q false) (ops P)); simpl;
+      split; intros H; try reflexivity; discriminate H.
+  - intros h q. rewrite (arcs_lk _ Hwf), Hlk, <- !ops_eb. unfold combine. simpl.
+    destruct (existsb (eb h q true) (ops P)), (existsb (eb h q false) (ops P)); simpl;
+      split; intros H; try reflexivity; try discriminate H;
+      try match type of H with _ /\ _ =>
+            destruct H as [Ha Hb]; first [discriminate Ha | exfalso; apply Hb; reflexivity] end.
+    split; [reflexivity|discriminate].
+  - intros h q b b'. rewrite !(arcs_lk _ Hwf). intros -> [= ->]. reflexivity.
 Qed.
